@@ -145,6 +145,18 @@ pub fn tk_handler(a: &[&str]) -> String {
             None => verdict = Err("re-encoding failed on a well-formed input".into())
         }
     }
+    // the other ways to a tokenizer agree: Decoder::tokens() (borrowed) and Tokenizer::from(decoder) (by value), also from a decoder
+    // that already stands behind a header (they tokenise the REMAINING input)
+    {
+        let show = |v: &Vec<Result<Token, decode::Error>>| show_items(v);
+        let mut pre = vec![0x18u8, 0x2a]; pre.extend_from_slice(&inp);
+        let mut d = minicbor::Decoder::new(&pre);
+        let _ = d.u8();
+        let by_val: Vec<_> = Tokenizer::from(d.clone()).take(inp.len() + 2).collect();
+        let borrowed: Vec<_> = d.tokens().take(inp.len() + 2).collect();
+        if show(&by_val) != show(&items) { verdict = Err("Tokenizer::from(decoder at position 2) does not tokenise the remaining input".into()) }
+        if show(&borrowed) != show(&items) { verdict = Err("Decoder::tokens() at position 2 does not tokenise the remaining input".into()) }
+    }
     // iterating again after the end yields nothing more
     let mut tz = Tokenizer::new(&inp);
     let mut n = 0;
